@@ -52,6 +52,10 @@ CLAIMED = {
  "C15": dict(level="other", technique="static analysis: call-site typestates from the interprocedural variant analysis, must-guard dataflow for reply admission / time-out delivery, who-writes x typestate for the application index, value-term checks for round-robin arithmetic, constant tables over rustc MIR",
    text="Decides: applications are asked to transmit only in UseToken and get replies/time-outs only in AwaitDataResponse, after which the station is back in UseToken; the wait is entered only for requests expecting a reply; admission filter (source, destination, response) and time-out guard; reply and time-out go to apps[next_application], which only the scheduler writes, only in UseToken; next index = (index+1) mod n, cycle completed iff back at the visit's first application, visit data carried unchanged through the wait; expects_reply tables. Fairness over schedules is not decided.",
    note="Trusted: " + TB + "; callback contracts of the provided PHY helpers (checked by C16).", ref="§4-C15"),
+
+ "C01": dict(level="other", technique="static analysis: transmit-site typestates from the interprocedural variant analysis, interprocedural must-guard (sync pause) check, per-path event marks with result correlation (one transmission per poll), dependency/value-term checks for mark_tx and the 33/11-bit constants over rustc MIR",
+   text="Decides the single-station structural clauses: every PHY transmission happens in an allowed typestate (token / GAP request in ClaimToken|PassToken, status reply in ListenToken|ActiveIdle with a recorded request addressed to this station, application telegram in UseToken; claim only after the silence time-out); every transmission is preceded in the same poll by the 33-bit synchronisation pause, the dispatch by the ongoing-transmission check and the RX-activity update; no second transmission per poll; the byte count of each transmission reaches mark_tx = now + bits_to_time(11*bytes); time-out stagger depends on address and slot time; single bit/time conversion. Collision freedom between several independently scheduled stations and µs timing are NOT decided (schedules of independent processes).",
+   note="Trusted: " + TB + "; rules/spec_tables.json; callback contracts of the provided PHY helpers.", ref="§4-C01"),
 }
 
 NA = {
